@@ -172,7 +172,7 @@ func c07() {
 	}
 
 	// (2) defect injection into valid base policies
-	nBase := run.N(120, 3000)
+	nBase := run.N(500, 8000)
 	vlib.Parallel(nBase, func(i int) {
 		r := caseRand(run, i)
 		t := ts[i%len(ts)]
@@ -213,7 +213,7 @@ func c07() {
 	})
 
 	// (3) acceptance and rule-drop on defect-free policies
-	nValid := run.N(600, 15000)
+	nValid := run.N(3000, 50000)
 	vlib.Parallel(nValid, func(i int) {
 		r := caseRand(run, 1000000+i)
 		t := ts[i%len(ts)]
